@@ -730,6 +730,8 @@ class Gen:
         r = self.rng
         out = []
         if type(c) is int:
+            if 0 < abs(c) < 2 ** 53:
+                out.append(["float", repr(float(c))])      # equal as a number, not an int
             if c.bit_length() > 300:
                 out += [c ^ (1 << 381), c ^ (1 << r.choice([382, 383]))]
             out += [c + 1, c - 1, -c, c ^ (1 << r.randrange(max(1, c.bit_length())))]
@@ -1555,11 +1557,14 @@ class Scenarios(Gen):
         self.plan_storm(spec, targets, lo=6, hi=40)
         if faults:
             self.plan_faults(spec, nf=r.choice([1, 2]), include_prelude=False)
-            if used_shared and not any(f["task"] == targets[0][0] and f["op"] == targets[0][1]
+            first = spec["schedule"]["first"]
+            own = [tg for tg in targets if tg[0] == first][:1] or targets[:1]
+            if used_shared and not any(f["task"] == own[0][0] and f["op"] == own[0][1]
                                        for f in spec["faults"]):
-                # the caller that everybody else may be waiting for is the one interrupted
-                spec["faults"].append({"kind": "async_exc", "task": targets[0][0],
-                                       "op": targets[0][1], "frac": 0.1 + 0.85 * r.random(),
+                # the caller that starts first - the one everybody else may be waiting
+                # for - is the one interrupted, late enough for the others to have arrived
+                spec["faults"].append({"kind": "async_exc", "task": own[0][0],
+                                       "op": own[0][1], "frac": 0.3 + 0.65 * r.random(),
                                        "exc": r.choice(["SimInterrupt", "KeyboardInterrupt",
                                                         "MemoryError", "TimeoutError"])})
         return spec
@@ -1592,7 +1597,8 @@ class Scenarios(Gen):
         args1 = op1.get("args") or []
         # (2) bytes argument as a reused bytearray buffer
         bpos = [p for p, a in enumerate(args1) if isinstance(a.get("lit"), list) and
-                len(a["lit"]) == 2 and a["lit"][0] == "bytes" and a["lit"][1]]
+                len(a["lit"]) == 2 and a["lit"][0] in ("bytes", "bytearray", "memoryview")
+                and a["lit"][1]]
         for pos in (bpos if tpl.cost <= 30 else bpos[:1] if tpl.cost <= 150 else [])[:3]:
             hx = args1[pos]["lit"][1]
             raw = bytearray(bytes.fromhex(hx))
